@@ -428,10 +428,45 @@ def observe_run(c, fe, opts, nan_at=None, np_seed=0):
     _m, _t, o['cond_after'] = merit_oracle(lens, c.ops, with_cond=True)
     o['merit_after_oracle'] = penal(_m)
     o['raw_after'] = [raw_get(lens, vs) for vs in c.vars]
+    o['pos_sens'] = position_rounding_sensitivity(c, o)
     o['dependents'] = dependents(c)
     o['nan_z_after'] = [k for k, sf in enumerate(lens.surface_group.surfaces) if k >= 1 and not math.isfinite(fscalar(sf.geometry.cs.z))]
     o['stack_len'] = len(c.optimizer._x) if c.optimizer is not None else None
     return o
+
+
+def position_rounding_sensitivity(c, o):
+    """How far the merit on the lens as left can differ from the objective scipy computed at the same x because the
+    vertex positions are not a function of x alone: Optic.set_thickness and the solves ADD to the stored absolute
+    positions (`positions[k+1:] += delta`, `cs.z += offset`), each such addition rounds every later z_j by up to
+    u |z_j| (u = eps/2), and the additions made between that evaluation and the final apply differ from those made
+    before it.  Worst case dz = (n_eval + 1) (n_thickness_variables + n_solves) u max|z visited|; the merit change is
+    measured, first order, as sum_j |M(z_j + dz) - M| on a deep copy (each stored position rounds independently)."""
+    lens = c.lens
+    n_ops = sum(1 for vs in c.vars if vs['kind'] == 'thickness') + (1 if c.solve else 0)
+    if not n_ops:
+        return 0.0
+    zs = [abs(fscalar(sf.geometry.cs.z)) for sf in lens.surface_group.surfaces[1:]]
+    zmax = max([o.get('zmax_seen', 0.0)] + [z for z in zs if math.isfinite(z)])
+    dz = (o['n_eval'] + 1) * n_ops * 0.5 * np.finfo(float).eps * zmax
+    try:
+        base = merit_oracle(lens, c.ops)[0]
+        if not (math.isfinite(base) and dz > 0):
+            return 0.0
+        twin = copy.deepcopy(lens)
+        tot = 0.0
+        for sf in twin.surface_group.surfaces[1:]:
+            z0 = sf.geometry.cs.z
+            if not math.isfinite(fscalar(z0)):
+                continue
+            sf.geometry.cs.z = z0 + dz
+            m = merit_oracle(twin, c.ops)[0]
+            sf.geometry.cs.z = z0
+            if math.isfinite(m):
+                tot += abs(m - base)
+        return tot
+    except Exception:
+        return 0.0
 
 
 def _error_kind(e):
